@@ -78,6 +78,7 @@ func TestC15A_Gossip(t *testing.T) {
 
 	deliver := func(rt *rapid.T, k topicKind, data []byte, how, sig string, tags ...string) {
 		ts := topics[k.name]
+		data = exact(data)
 		p := &probe{part: "gossip", entry: "gossip/" + k.name, input: data, note: how, noGoroutineCheck: true}
 		res := pubsub.ValidationResult(-1)
 		handled := false
